@@ -565,4 +565,149 @@ theorem C11_pilot_sandbox_own (sess : Nat) (pids : List Nat) :
     pilotSandboxes sess [] pids = pids.map (fun pid => (sess, pid)) :=
   pilotSandboxes_spec sess [] pids (by simp)
 
+/-! ## from directives to operations: the client side of input staging -/
+
+def isPut : Op → Bool
+  | .put _ _ => true
+  | _        => false
+
+/-- the transfers of the directives that are not TARBALL directives, in order -/
+def plainPlan (t : Task) : List SD → Except Err (List Op)
+  | []         => .ok []
+  | sd :: rest =>
+    if sd.action = "Tarball" then plainPlan t rest
+    else match resolveOp (clientSrcCtx t.boxes) (clientTgtCtx t.boxes) sd with
+         | .error e => .error e
+         | .ok op   => match plainPlan t rest with
+                       | .ok r    => .ok (op :: r)
+                       | .error e => .error e
+
+theorem helperOp_notPut (a : String) (s g : Path) (op : Op) (h : helperOp a s g = some op) : isPut op = false := by
+  unfold helperOp at h
+  split at h
+  · cases h; rfl
+  · split at h
+    · cases h; rfl
+    · split at h
+      · cases h; rfl
+      · cases h
+
+theorem resolveOp_notPut (sc tc : List (String × Str)) (sd : SD) (op : Op) (h : resolveOp sc tc sd = .ok op) : isPut op = false := by
+  unfold resolveOp at h
+  split at h
+  · next s g _ _ =>
+    split at h
+    · next op' hh => cases h; exact helperOp_notPut _ _ _ _ hh
+    · cases h
+  · cases h
+  · cases h
+
+theorem tmgr_fold (t : Task) (entries : List (Path × Nat)) (l : List SD) :
+    ∀ (ops : List Op) (seen : Bool) (res : List Op) (seen' : Bool),
+      l.foldl (tmgrStep t entries) (.ok (ops, seen)) = .ok (res, seen') →
+      ∃ plain, plainPlan t l = .ok plain
+        ∧ res.filter (fun o => !isPut o) = ops.filter (fun o => !isPut o) ++ plain
+        ∧ res.filter isPut = ops.filter isPut ++
+            (if seen = false ∧ l.any (fun sd => sd.action = "Tarball") = true then [Op.put (tarPathOf t) (.tar entries)] else [])
+        ∧ seen' = (seen || l.any (fun sd => sd.action = "Tarball")) := by
+  induction l with
+  | nil =>
+    intro ops seen res seen' h
+    simp only [foldl_nil, Except.ok.injEq, Prod.mk.injEq] at h
+    obtain ⟨rfl, rfl⟩ := h
+    exact ⟨[], rfl, by simp, by simp, by simp⟩
+  | cons sd rest ih =>
+    intro ops seen res seen' h
+    rw [foldl_cons] at h
+    by_cases hT : sd.action = "Tarball"
+    · cases seen with
+      | true =>
+        have hstep : tmgrStep t entries (.ok (ops, true)) sd = .ok (ops, true) := by simp [tmgrStep, hT]
+        rw [hstep] at h
+        obtain ⟨plain, p1, p2, p3, p4⟩ := ih ops true res seen' h
+        exact ⟨plain, by simp [plainPlan, hT, p1], p2, by simpa using p3, by simp [p4]⟩
+      | false =>
+        have hstep : tmgrStep t entries (.ok (ops, false)) sd = .ok (ops ++ [Op.put (tarPathOf t) (.tar entries)], true) := by
+          simp [tmgrStep, hT]
+        rw [hstep] at h
+        obtain ⟨plain, p1, p2, p3, p4⟩ := ih _ true res seen' h
+        refine ⟨plain, by simp [plainPlan, hT, p1], ?_, ?_, by simp [p4, hT]⟩
+        · rw [p2]; simp [isPut]
+        · rw [p3]; simp [isPut, hT]
+    · cases hr : resolveOp (clientSrcCtx t.boxes) (clientTgtCtx t.boxes) sd with
+      | error e =>
+        have hstep : tmgrStep t entries (.ok (ops, seen)) sd = .error e := by simp [tmgrStep, hT, hr]
+        rw [hstep] at h
+        have : ∀ (l : List SD) (e : Err), l.foldl (tmgrStep t entries) (.error e) = .error e := by
+          intro l e; induction l with
+          | nil => rfl
+          | cons x xs ih2 => simp [foldl_cons, tmgrStep, ih2]
+        rw [this] at h; cases h
+      | ok op =>
+        have hstep : tmgrStep t entries (.ok (ops, seen)) sd = .ok (ops ++ [op], seen) := by simp [tmgrStep, hT, hr]
+        rw [hstep] at h
+        obtain ⟨plain, p1, p2, p3, p4⟩ := ih _ seen res seen' h
+        have hnp := resolveOp_notPut _ _ _ _ hr
+        refine ⟨op :: plain, by simp [plainPlan, hT, hr, p1], ?_, ?_, by simp [p4, hT]⟩
+        · rw [p2]; simp [hnp]
+        · rw [p3]; simp [hnp, hT]
+
+theorem any_iff_filter_ne_nil (l : List SD) :
+    (l.any (fun sd => sd.action = "Tarball") = true) ↔ l.filter (fun sd => sd.action = "Tarball") ≠ [] := by
+  induction l with
+  | nil => simp
+  | cons x xs ih =>
+    by_cases hx : x.action = "Tarball"
+    · simp [hx]
+    · simp [hx]
+
+/-- **from directives to operations** (client side of input staging): when the stage could resolve all it had
+    to, (1) every TARBALL directive's source was read into the tarball under the name of its target, in
+    order; (2) the other directives the client acts on became their transfers, in order; (3) the tarball is
+    shipped exactly once to `task:///<uid>.tar` iff there was a TARBALL directive, and then the agent is left
+    exactly one directive to unpack it; (4) nothing else is done -/
+theorem C11_tmgr_in_plan (tb : Tables) (fs : FS) (t : Task) (ops : List Op) (inputs' : List SD)
+    (h : tmgrInPlan tb fs t = .ok (ops, inputs')) :
+    (t.inputs.filter (fun sd => tb.tmgrIn.contains sd.action) = [] → ops = [] ∧ inputs' = t.inputs) ∧
+    (t.inputs.filter (fun sd => tb.tmgrIn.contains sd.action) ≠ [] →
+      ∃ entries plain,
+        ((t.inputs.filter (fun sd => tb.tmgrIn.contains sd.action)).filter (fun sd => sd.action = "Tarball")).mapM (packEntry fs t) = .ok entries
+        ∧ plainPlan t (t.inputs.filter (fun sd => tb.tmgrIn.contains sd.action)) = .ok plain
+        ∧ ops.filter (fun o => !isPut o) = plain
+        ∧ ops.filter isPut =
+            (if (t.inputs.filter (fun sd => tb.tmgrIn.contains sd.action)).filter (fun sd => sd.action = "Tarball") = [] then []
+             else [Op.put (tarPathOf t) (.tar entries)])
+        ∧ inputs' =
+            (if (t.inputs.filter (fun sd => tb.tmgrIn.contains sd.action)).filter (fun sd => sd.action = "Tarball") = [] then t.inputs
+             else t.inputs ++ [tarDirective t])) := by
+  unfold tmgrInPlan at h
+  generalize hacts : t.inputs.filter (fun sd => tb.tmgrIn.contains sd.action) = acts at *
+  by_cases ha : acts = []
+  · rw [if_pos ha] at h
+    simp only [Except.ok.injEq, Prod.mk.injEq] at h
+    exact ⟨fun _ => ⟨h.1.symm, h.2.symm⟩, fun hne => absurd ha hne⟩
+  · rw [if_neg ha] at h
+    refine ⟨fun he => absurd he ha, fun _ => ?_⟩
+    cases hm : (acts.filter (fun sd => sd.action = "Tarball")).mapM (packEntry fs t) with
+    | error e => rw [hm] at h; cases h
+    | ok entries =>
+      rw [hm] at h
+      simp only at h
+      cases hf : acts.foldl (tmgrStep t entries) (.ok ([], false)) with
+      | error e => rw [hf] at h; cases h
+      | ok r =>
+        obtain ⟨res, seen'⟩ := r
+        rw [hf] at h
+        simp only [Except.ok.injEq, Prod.mk.injEq] at h
+        obtain ⟨rfl, rfl⟩ := h
+        obtain ⟨plain, p1, p2, p3, _⟩ := tmgr_fold t entries acts [] false res seen' hf
+        refine ⟨entries, plain, rfl, p1, by simpa using p2, ?_, rfl⟩
+        by_cases ht : acts.filter (fun sd => sd.action = "Tarball") = []
+        · have : ¬ (acts.any (fun sd => sd.action = "Tarball") = true) := fun hc => (any_iff_filter_ne_nil acts).mp hc ht
+          simp only [ht, if_true]
+          rw [p3]; simp [this]
+        · have : acts.any (fun sd => sd.action = "Tarball") = true := (any_iff_filter_ne_nil acts).mpr ht
+          simp only [ht, if_false]
+          rw [p3]; simp [this]
+
 end RPVerif.C11
